@@ -1,4 +1,5 @@
 import GV.Model.ScriptDataHash
+import GV.Lib.AssocMap
 import GV.Gen.RuleLists
 /-!
 C31 — The script data hash binds redeemers, datums and cost models.
@@ -107,6 +108,129 @@ theorem key_order_canonical :
   decide
 
 example : allOrders.length = 65 := by decide
+
+
+-- ------------------------------------------------------------------ byte-level language views
+
+/-- insertion sort of version numbers by their tags (the sort of `EncodeLangViews`, keys only) -/
+def insertV (x : Nat) : List Nat → List Nat
+  | [] => [x]
+  | y :: r => if shortLexLt (tagOf x) (tagOf y) then x :: y :: r else y :: insertV x r
+
+def sortV : List Nat → List Nat
+  | [] => []
+  | x :: r => insertV x (sortV r)
+
+theorem insertView_map (g : Nat → Bytes) (x : Nat) (l : List Nat) :
+    insertView (tagOf x, g x) (l.map (fun v => (tagOf v, g v))) =
+      (insertV x l).map (fun v => (tagOf v, g v)) := by
+  induction l with
+  | nil => rfl
+  | cons y r ih =>
+    simp only [List.map_cons, insertView, insertV]
+    split
+    · rfl
+    · simp only [List.map_cons, ih]
+
+theorem sortViews_map (g : Nat → Bytes) (l : List Nat) :
+    sortViews (l.map (fun v => (tagOf v, g v))) = (sortV l).map (fun v => (tagOf v, g v)) := by
+  induction l with
+  | nil => rfl
+  | cons x r ih => simp only [List.map_cons, sortViews, sortV, ih, insertView_map]
+
+/-- on the complete finite domain the sorted order is 1,2,3,0 restricted to the used versions -/
+theorem sortV_canonical : ∀ used ∈ allOrders, sortV used = [1, 2, 3, 0].filter (fun v => used.contains v) := by
+  decide
+
+theorem ao1 : ∀ a, a < 4 → [a] ∈ allOrders := by decide
+theorem ao2 : ∀ a, a < 4 → ∀ b, b < 4 → [a, b].Nodup → [a, b] ∈ allOrders := by decide
+set_option synthInstance.maxSize 2000 in
+theorem ao3 : ∀ a, a < 4 → ∀ b, b < 4 → ∀ c, c < 4 → [a, b, c].Nodup → [a, b, c] ∈ allOrders := by decide
+set_option synthInstance.maxSize 4000 in
+set_option maxRecDepth 4000 in
+theorem ao4 : ∀ a, a < 4 → ∀ b, b < 4 → ∀ c, c < 4 → ∀ d, d < 4 → [a, b, c, d].Nodup →
+    [a, b, c, d] ∈ allOrders := by decide
+
+/-- `allOrders` is complete: every duplicate-free list of supported versions is in it -/
+theorem allOrders_complete (used : List Nat) (hn : used.Nodup) (hb : ∀ v ∈ used, v < 4) :
+    used ∈ allOrders := by
+  have hlen : used.length ≤ 4 := by
+    have := GV.Lib.AssocMap.length_le_of_nodup_subset (l₂ := [0, 1, 2, 3]) hn (by
+      intro v hv; have := hb v hv
+      simp only [List.mem_cons, List.not_mem_nil, or_false]; omega)
+    simpa using this
+  match used, hn, hb, hlen with
+  | [], _, _, _ => decide
+  | [a], _, hb, _ => exact ao1 a (hb a (by simp))
+  | [a, b], hn, hb, _ => exact ao2 a (hb a (by simp)) b (hb b (by simp)) hn
+  | [a, b, c], hn, hb, _ => exact ao3 a (hb a (by simp)) b (hb b (by simp)) c (hb c (by simp)) hn
+  | [a, b, c, d], hn, hb, _ =>
+    exact ao4 a (hb a (by simp)) b (hb b (by simp)) c (hb c (by simp)) d (hb d (by simp)) hn
+  | _ :: _ :: _ :: _ :: _ :: _, _, _, hl => simp at hl
+
+theorem views_ok (cm : Nat → Option (List Int)) : ∀ (used : List Nat),
+    (∀ v ∈ used, v < 4) → (∀ v ∈ used, (cm v).isSome) →
+    views used cm = .ok (used.map (fun v => (tagOf v, paramsOf v ((cm v).getD [])))) := by
+  intro used
+  induction used with
+  | nil => intro _ _; rfl
+  | cons x r ih =>
+    intro hb hc
+    have hx := hb x List.mem_cons_self
+    have hcx := hc x List.mem_cons_self
+    have ihr := ih (fun v hv => hb v (List.mem_cons_of_mem _ hv)) (fun v hv => hc v (List.mem_cons_of_mem _ hv))
+    unfold views at ihr ⊢
+    rw [List.mapM_cons]
+    have h3 : ¬ x > 3 := by omega
+    cases hcm : cm x with
+    | none => rw [hcm] at hcx; simp at hcx
+    | some m =>
+      simp only [h3, ↓reduceIte, hcm, ihr, Option.getD_some, List.map_cons]
+      rfl
+
+theorem mapM_params (cm : Nat → Option (List Int)) : ∀ (l : List Nat), (∀ v ∈ l, (cm v).isSome) →
+    l.mapM (fun v => (cm v).map (fun m => tagOf v ++ paramsOf v m)) =
+      some (l.map (fun v => tagOf v ++ paramsOf v ((cm v).getD []))) := by
+  intro l
+  induction l with
+  | nil => intro _; rfl
+  | cons x r ih =>
+    intro h
+    have hx := h x List.mem_cons_self
+    rw [List.mapM_cons, ih (fun v hv => h v (List.mem_cons_of_mem _ hv))]
+    cases hcx : cm x with
+    | none => rw [hcx] at hx; simp at hx
+    | some m => simp [hcx]
+
+/-- **The language-views encoding is the ledger's, byte for byte**: for every duplicate-free list of
+    supported versions in any iteration order and all cost-model contents, `EncodeLangViews` returns
+    exactly the canonical map — keys 01, 02, 03, 4100 in that order, PlutusV1's value a byte string
+    wrapping an indefinite list, the others a definite list. -/
+theorem langViews_spec (used : List Nat) (cm : Nat → Option (List Int)) (hn : used.Nodup)
+    (hb : ∀ v ∈ used, v < 4) (hc : ∀ v ∈ used, (cm v).isSome) :
+    ∃ b, encodeLangViews used cm = .ok b ∧ specLangViews used cm = some b := by
+  have hsort := sortV_canonical used (allOrders_complete used hn hb)
+  have hmem : ∀ v ∈ [1, 2, 3, 0].filter (fun v => used.contains v), (cm v).isSome := by
+    intro v hv
+    have := (List.mem_filter.mp hv).2
+    exact hc v (by simpa using this)
+  have hm := mapM_params cm _ hmem
+  have hol : ([1, 2, 3, 0].filter (fun v => used.contains v)).length < 24 := by
+    have : ([1, 2, 3, 0].filter (fun v => used.contains v)).length ≤ [1, 2, 3, 0].length :=
+      List.length_filter_le _ _
+    simp only [List.length_cons, List.length_nil] at this; omega
+  unfold specLangViews
+  simp only [hm]
+  refine ⟨_, ?_, rfl⟩
+  unfold encodeLangViews
+  rw [views_ok cm used hb hc]
+  simp only
+  rw [sortViews_map (fun v => paramsOf v ((cm v).getD [])) used, hsort]
+  simp only [List.length_map, hol, ↓reduceIte, List.flatMap_map, List.flatMap_def, List.map_map]
+  rfl
+
+/-- Non-vacuity: the hypotheses of `langViews_spec` for all four languages in a scrambled order. -/
+example : [2, 0, 3, 1].Nodup ∧ (∀ v ∈ [2, 0, 3, 1], v < 4) := by decide
 
 /-- PlutusV1's double bagging, PlutusV2's plain list: the exact bytes for a concrete cost model. -/
 example : (match encodeLangViews [0, 1] (fun v => if v = 0 then some [1, -1] else if v = 1 then some [24] else none) with
